@@ -358,13 +358,14 @@ def run(chk) -> None:
     )
     chk.trusted = ["CPython ast", "pandas groupby/sort semantics", "wwPDB column table and IUPAC torsion table in spec/"]
     chk.assumptions = ["structures without alternate locations", "label and auth atom/residue names are equal in the quantified tables", "sign of the torsion is C18's business (magnitudes here)"]
-    chk.robust |= {"pdb-slices-agree", "pdb-slices-v2", "pdb-record-filter", "pdb-decode-v2", "int-parsing", "connect-threshold", "connect-agree", "connect-atoms", "chi-atoms", "chi-agree", "chi-dispatch", "chi-bases", "backbone-atoms", "pdb-columns", "group-columns", "connect-order", "null-markers-v2"}
+    chk.robust |= {"pdb-slices-agree", "pdb-slices-v2", "pdb-record-filter", "pdb-decode-v2", "int-parsing", "connect-threshold", "connect-agree", "connect-atoms", "chi-atoms", "chi-agree", "chi-dispatch", "chi-bases", "backbone-atoms", "pdb-columns", "group-columns", "connect-order", "null-markers-v2", "format-detection"}
     check_reader_agreement(chk)
     check_item_preference(chk)
     check_connectivity(chk)
     check_chi(chk)
     c08.check_pdb_columns(chk)
     c08.check_parse_pdb(chk)
+    c08.check_format_detection(chk)  # "whether the atoms were supplied as PDB or as mmCIF": the file reaches the reader of its format
     for rule, n in (("pdb-slices-agree", 9), ("pdb-slices-v2", 15), ("connect-threshold", 2), ("chi-atoms", 2), ("prefer-auth", 6)):
         chk.floor(rule, n)
 
